@@ -205,8 +205,8 @@ def check(repo):
             else:
                 r5.ok({"function": "HmacPRF.__call__", "subject": subj, "declared": decl})
     ab = repo.func("toolkit/prf/abstraction.py", "AbstractPRF.__init__")
-    s_ab = unparse(ab.node)
-    r5.require(all(("self.%s = %s" % (x, x)) in s_ab for x in ("output_length", "message_length", "key_length")), ab, "declared lengths stored",
+    from ..pathsum import stores_params
+    r5.require(stores_params(ab, ("output_length", "message_length", "key_length")), ab, "declared lengths stored",
                "AbstractPRF.__init__ no longer stores the declared lengths")
 
     # ---------------------------------------------------------------- hash wrapper
